@@ -199,6 +199,17 @@ class Interp(ExprMixin, CallMixin):
                 if fr.cond_depth or fr.in_loop > fr.unrolled:
                     fr.yields_complete = False
             return 'next'
+        call = st.value
+        if isinstance(call, ast.Call) and isinstance(call.func, ast.Attribute) and call.func.attr in ('append', 'extend', 'insert') and \
+                isinstance(call.func.value, ast.Name) and call.func.value.id in fr.env and isinstance(fr.env[call.func.value.id], Sym) and \
+                fr.env[call.func.value.id].op in ('list', 'sorted', 'reversed') and call.args and not call.keywords:
+            # a local copy of some sequence (``xs = list(self.items)``) that is extended afterwards: from here on the local is that copy
+            # *plus* the added items - not the original sequence any more
+            name = call.func.value.id
+            added = self.eval(call.args[-1], fr)
+            extra = [Sym('splat', added)] if call.func.attr == 'extend' else [added]
+            fr.env[name] = ListV([Sym('splat', fr.env[name])] + extra, False)
+            return 'next'
         self.eval(st.value, fr)
         return 'next'
 
